@@ -56,7 +56,7 @@ fn int_ref(b: &[u8], require_sign: bool) -> (u8, i64) {
 fn verif_native_parse_integer() {
     let name = "verif_native_parse_integer";
     let alpha = ['+', '-', '0', '1', '7', '9', '#', 'x', 'X', 'o', 'b', 'f', 'F', 'g', '_', '^', 'r'];
-    let mut inputs = verif_strings(&alpha, 5);
+    let mut inputs = verif_strings(&alpha, if verif_deep() { 6 } else { 5 });
     for v in [2147483646i64, 2147483647, 2147483648, 2147483649, 4294967295, 4294967296, 99999999999] {
         for s in ["", "-", "+", "#", "-#", "#-"] { inputs.push(format!("{}{}", s, v)); }
     }
